@@ -128,38 +128,42 @@ Theorem C02_xor_unsigned : forall z k, is_unsigned_kind k = true -> 0 <= z <= ki
 Proof. exact xor_unsigned. Qed.
 Print Assumptions C02_xor_unsigned.
 
-(* ---- shifts: x << n is x * 2^n, rejected beyond 512 bits; a count >= 512 is
-   rejected for << (whatever x is, also 0); a negative count is rejected;
-   x >> n is the floor of x / 2^n for every count that fits uint, rejected
+(* ---- shifts: x << n is x * 2^n, rejected beyond 512 bits; for a non-zero x
+   a count >= 512 is rejected; zero can be shifted by every count up to 1074
+   (0 << 512 was rejected before fix d3683c7); for both shifts a count above
+   1074 (the limit of gc) is rejected (1 >> 2000 was accepted before the fix);
+   a negative count is rejected;
+   x >> n is the floor of x / 2^n for every count up to 1074, rejected
    when the result is beyond 512 bits (0x1p1000 >> 65, accepted before fix
    c78e043), which never happens for an operand below 512 bits *)
 Theorem C02_shl :
   (forall small z n, 0 <= n < 512 ->
   shift_int OShl small z (Num (I64 n)) =
     if Z.abs (z * 2 ^ n) <? 2 ^ 512 then Ok (Num (Big (z * 2 ^ n))) else Err EShlOverflow) /\
-  (forall small z n, 512 <= n -> in64 n ->
+  (forall small z n, z <> 0 -> 512 <= n -> in64 n ->
   shift_int OShl small z (Num (I64 n)) = Err EShiftLarge) /\
+  (forall small n, 0 <= n -> in64 n ->
+  shift_int OShl small 0 (Num (I64 n)) = if n <=? 1074 then Ok (Num (Big 0)) else Err EShiftLarge) /\
+  (forall o small z n, is_shift o = true -> 1074 < n -> in64 n ->
+  shift_int o small z (Num (I64 n)) = Err EShiftLarge) /\
   (forall o small z n, is_shift o = true -> n < 0 -> in64 n ->
   shift_int o small z (Num (I64 n)) = Err EShiftNeg) /\
-  (forall o n,
-  shift_const_error o (Num (Big n)) =
+  (forall o zero1 n,
+  shift_const_error o zero1 (Num (Big n)) =
     if n <? 0 then Some EShiftNeg
     else if maxu64 <? n then Some EShiftOvfUint
-    else match o with
-         | OShl => if 512 <=? n then Some EShiftLarge else None
-         | _ => None
-         end).
-Proof. split; [exact shl_exact|split; [exact shl_count_limit|split; [exact shift_negative_count|exact shift_count_big]]]. Qed.
+    else count_error o zero1 n).
+Proof. split; [exact shl_exact|split; [exact shl_count_limit|split; [exact shl_zero|split; [exact shift_count_max|split; [exact shift_negative_count|exact shift_count_big]]]]]. Qed.
 Print Assumptions C02_shl.
 
 
 
 Theorem C02_shr_exact :
-  (forall small z n, 0 <= n -> in64 n ->
+  (forall small z n, 0 <= n <= 1074 ->
   shift_int OShr small z (Num (I64 n)) =
     if small then Ok (Num (I64 (z / 2 ^ n)))
     else if Z.abs (z / 2 ^ n) <? 2 ^ 512 then Ok (Num (Big (z / 2 ^ n))) else Err EShlOverflow) /\
-  (forall z n, 0 <= n -> in64 n -> Z.abs z < 2 ^ 512 ->
+  (forall z n, 0 <= n <= 1074 -> Z.abs z < 2 ^ 512 ->
   shift_int OShr false z (Num (I64 n)) = Ok (Num (Big (z / 2 ^ n)))).
 Proof. split; [exact shr_exact|exact shr_no_overflow]. Qed.
 Print Assumptions C02_shr_exact.
@@ -325,6 +329,14 @@ Example C02_example_complex :
   bin_cplx OMul (I64 3) (I64 4) (I64 3) (I64 4) = Ok (Cplx (I64 (-7)) (I64 24)) /\
   bin_cplx ODiv (I64 1) (I64 2) (I64 3) (I64 4) = Ok (Cplx (Rat 11 25) (Rat 2 25)).
 Proof. vm_compute. split; reflexivity. Qed.
+
+Example C02_example_shift_counts :
+  shift_rc OShl (I64 0) (Num (I64 512)) = Ok (Num (Big 0)) /\
+  shift_rc OShl (I64 0) (Num (I64 1075)) = Err EShiftLarge /\
+  shift_rc OShr (I64 1) (Num (I64 2000)) = Err EShiftLarge /\
+  shift_rc OShr (I64 1) (Num (I64 1074)) = Ok (Num (I64 0)) /\
+  shift_rc OShl (I64 1) (Num (I64 512)) = Err EShiftLarge.
+Proof. vm_compute. repeat split. Qed.
 
 Example C02_example_shr_of_float_above_512_bits :
   shift_rc OShr (BigF (FFin false 1 1000)) (Num (I64 65)) = Err EShlOverflow /\
